@@ -4,13 +4,28 @@
 
 pub mod gen;
 pub mod oracle;
+pub mod serde_drv;
 pub mod sym;
 #[cfg(kani)]
 pub mod stubs;
 
 pub mod adapt;
 pub mod c02;
+pub mod c01;
 pub mod c03;
+pub mod c05;
+pub mod c07;
+pub mod c08;
+pub mod c09;
+pub mod c10;
+pub mod c11;
 pub mod c12;
+pub mod c13;
+pub mod c14;
+pub mod c16;
+pub mod c18;
+pub mod c19;
+pub mod c20;
+pub mod kf;
 
 pub use gen::tables;
